@@ -21,7 +21,7 @@ from sim.streamsim import configs
 PROPERTY = "C10"
 LEVEL = "fault_enumeration"
 TIERS = {
-    "quick": {"runs": 2700, "budget": 150, "selftest": 24, "shrink_budget": 80, "chunk": 16, "task_timeout": 900},
+    "quick": {"runs": 2800, "budget": 150, "selftest": 24, "shrink_budget": 80, "chunk": 16, "task_timeout": 900},
     "thorough": {"runs": 60000, "budget": 2400, "selftest": 400, "shrink_budget": 200, "chunk": 16, "task_timeout": 1800},
 }
 RUN_TIMEOUT_S = 300
@@ -32,7 +32,8 @@ RULE = (
     "from a C call made by those frames (sys.setprofile c_return: where a signal arriving during print / torch.save is "
     "delivered) once as a SOFT_INTERRUPT point, every 5th line "
     "event inside torch/serialization.py (every one in the thorough tier) likewise, plus a torn in-flight feature "
-    "file at 8 lengths per utterance; each followed by one fault-free re-run. The remaining runs are seeded random "
+    "file at 8 lengths per utterance; each followed by one fault-free re-run; for base 0 also two-step histories (a "
+    "first hard kill after two utterances, then a hard kill at every 2nd line event of the resumed run). The remaining runs are seeded random "
     "scenarios: 1-8 utterances (ids that are prefixes of one another included), configuration swarm, pre/post-"
     "processors, --seed / dither, worker counts 0-4 with seeded interleavings of the simulated pool, manifest buffer "
     "size knob, stale output directory, ambient RNG state per run, and sequences of up to 3 crash/resume cycles. "
@@ -90,7 +91,7 @@ def _base(i):
         corpus = [{"id": uid, "container": c, "n": n, "seed": 200 + j, "channels": 1, "store_dtype": "float64"}
                   for j, (uid, c, n) in enumerate([("uab", "npy", 260), ("u", "npz", 300), ("ua", "pt", 180)])]
         return {"corpus": corpus, "cfg": _cfg_small("stft"), "pre": [{"name": "dither", "coeff": 2.0}],
-                "post": [{"name": "deltas", "num_deltas": 1}], "args": {"seed": 7, "num_workers": 0},
+                "post": [{"name": "deltas", "num_deltas": 1}], "args": {"seed": 0, "num_workers": 0},
                 "knobs": {"pool": "sim", "manifest_buffer": 16}, "stale": []}
     corpus = [{"id": "s%d" % j, "container": c, "n": n, "seed": 300 + j, "channels": 1, "store_dtype": "int16"}
               for j, (c, n) in enumerate([("npy", 150), ("hdf5", 220), ("wav", 130)])]
@@ -127,6 +128,15 @@ def _fixed(tier):
                 s = copy.deepcopy(base)
                 s["runs"] = [{"fault": {"kind": kind, "scope": "deep", "at": k}}, {"fault": None}]
                 s["enumerated"] = "base%d/deep/%d" % (bi, k)
+                out.append(s)
+        if bi == 0:
+            # two-step histories: a first hard kill after two utterances are done, then a hard kill at EVERY tool-level
+            # line event of the resumed run (it is shorter than a full run; points beyond its end never fire)
+            for k in range(0, n_tool, 1 if tier != "quick" else 2):
+                s = copy.deepcopy(base)
+                s["runs"] = [{"fault": {"kind": "HARD_KILL", "scope": "tool", "anchor": "save_end", "occurrence": 1, "offset": 1}},
+                             {"fault": {"kind": "HARD_KILL", "scope": "tool", "at": k}}, {"fault": None}]
+                s["enumerated"] = "base%d/twostep/%d" % (bi, k)
                 out.append(s)
         for j in range(len(base["corpus"])):
             for f8 in range(8):
@@ -202,7 +212,7 @@ def generate(rng, tier, k):
         cfg, comp, _ = configs.gen_config(rng, "stft" if rng.random() < 0.75 else "si")
         if comp.frame_length > 400 or not common.torch_portable(cfg, comp):
             cfg = _cfg_small("stft")
-    seed = rng.choice((None, None, rng.randrange(0, 1000)))
+    seed = rng.choice((None, None, 0, rng.randrange(0, 1000), rng.randrange(0, 1000)))
     pre, post = [], []
     if rng.random() < 0.3:
         pre.append({"name": "preemphasize", "coeff": rng.choice((0.97, 0.5))})
@@ -481,6 +491,12 @@ def _run(scn, d, res, tr):
                     break
         if bad:
             res.violate(bad[0], "after run %d (%s): %s" % (ri, sig[-1], bad[1]), **facts)
+            break
+        # I6: the manifest never loses an entry (what was completed and listed in an earlier run stays listed)
+        lost = [u for u in listed_before if u not in listed]
+        if lost:
+            res.violate("I6_MANIFEST_LOST_ENTRIES", "run %d (%s) removed %s from the manifest (it listed %s before, %s after)"
+                        % (ri, sig[-1], lost, listed_before, listed), **facts)
             break
         # I2: every utterance completed before the interruption is listed, except possibly the last one
         done_names = [name_of.get(u, u) for u in ended]
